@@ -30,6 +30,20 @@ class RaiseEx(Exception):
 
 
 SOLVER_TIMEOUT_MS = 10000
+
+
+def _has_quantifier(f):
+    seen = set()
+    todo = [f]
+    while todo:
+        t = todo.pop()
+        if t.get_id() in seen:
+            continue
+        seen.add(t.get_id())
+        if z3.is_quantifier(t):
+            return True
+        todo.extend(t.children())
+    return False
 FEAS_TIMEOUT_MS = 3000
 
 
@@ -106,6 +120,8 @@ class VC:
         f = term(f)
         self.pc.append(f)
         self.solver.add(f)
+        if self.light is not None and not _has_quantifier(f):
+            self.light.add(f)
 
     def _sat(self, extra):
         self.solver.push()
@@ -114,8 +130,40 @@ class VC:
         self.solver.pop()
         return r
 
+    # feasibility queries of the path exploration (decide / concretize / feasible): `unknown`
+    # counts as feasible - exploring an infeasible path is harmless, its obligations hold
+    # vacuously - so a contract with many quantified assumptions may lower their budget
+    feas_timeout_ms = None
+    light = None      # second solver holding only the quantifier free part of the path condition
+
+    def use_light_feasibility(self):
+        """feasibility queries are answered from the quantifier free part of the path condition
+        (an over-approximation of feasibility: sound for path exploration)"""
+        self.light = z3.Solver()
+        self.light.set("timeout", 2000)
+        for f in self.pc:
+            if not _has_quantifier(f):
+                self.light.add(f)
+
+    def _feas(self, extra=None):
+        if self.light is not None:
+            if extra is None:
+                return self.light.check()
+            self.light.push()
+            self.light.add(extra)
+            r = self.light.check()
+            self.light.pop()
+            return r
+        if self.feas_timeout_ms is not None:
+            self.solver.set("timeout", self.feas_timeout_ms)
+        try:
+            return self._sat(extra) if extra is not None else self.solver.check()
+        finally:
+            if self.feas_timeout_ms is not None:
+                self.solver.set("timeout", SOLVER_TIMEOUT_MS)
+
     def feasible(self):
-        return self.solver.check() != z3.unsat
+        return self._feas() != z3.unsat
 
     def decide(self, cond):
         """Branch on a (possibly symbolic) boolean; returns a python bool."""
@@ -129,8 +177,8 @@ class VC:
         if self.pos < len(self.decisions):
             choice = self.decisions[self.pos]
         else:
-            can_t = self._sat(c) != z3.unsat
-            can_f = self._sat(z3.Not(c)) != z3.unsat
+            can_t = self._feas(c) != z3.unsat
+            can_f = self._feas(z3.Not(c)) != z3.unsat
             if can_t and can_f:
                 choice = 1
                 self.run.worklist.append(self.decisions[:self.pos] + [0])
@@ -179,7 +227,7 @@ class VC:
             choice = self.decisions[self.pos]
         else:
             for i, d in enumerate(domain):
-                if self._sat(t == term(d)) != z3.unsat:
+                if self._feas(t == term(d)) != z3.unsat:
                     feas.append(i)
             if not feas:
                 raise PathEnd()
